@@ -80,18 +80,6 @@ theorem split_zero_epochs_panics (total : Nat) : split total 0 = .error "integer
   unfold split
   rw [if_neg (by omega), if_pos rfl]
 
-theorem runGauge_total (g0 : Gauge) (hist : List (Int × DistData)) : (runGauge g0 hist).total = g0.total := by
-  induction hist generalizing g0 with
-  | nil => rfl
-  | cons x xs ih =>
-    obtain ⟨now, d⟩ := x
-    show (runGauge (triggerOrRevert g0 now d) xs).total = _
-    rw [ih]
-    unfold triggerOrRevert
-    split
-    · rename_i g' s h; exact (trigger_deposit g0 g' now d s h).2
-    · rfl
-
 /-- what a gauge with `TotalTriggers = 0` does: nothing is ever paid, whatever happens -/
 theorem zero_epochs_never_pays (deposit start : Int) (hist : List (Int × DistData)) (hd : 0 ≤ deposit) :
     (runGauge (newGauge deposit 0 start) hist).distributed = 0 := by
